@@ -15,6 +15,10 @@ def B(i):
     return {"n": "B", "i": i}
 
 
+def S(i):
+    return {"n": "S", "i": i}
+
+
 X = {"n": "X"}
 
 
@@ -58,6 +62,7 @@ def contexts(c, cx, rng=None):
         C("R", c), C("N", c), C("S", c, kw=t1), C("N", t1, kw=c),
         C("R", t1, kw=C("N", t2, kw=c)), C("N", C("R", c), kw=C("S", t2, kw=t1)),
         {"n": "Add", "a": B(3), "b": c}, {"n": "Add", "a": c, "b": B(3)}, C("R", B(3)), C("N", t1, kw=B(3)),
+        C(c.get("site", "R"), S(4)), {"n": "Add", "a": c, "b": C("N", S(4))}, {"n": "Add", "a": C("R", S(5)), "b": c},
         {"n": "LC", "elt": cx, "items": [t1, B(3)], "cond": NULL, "gen": False},
         {"n": "Lam", "body": {"n": "Add", "a": cx, "b": B(3)}, "arg": t1},
     ]
@@ -103,7 +108,7 @@ def has_x_free(t, bound=False):
     n = t["n"]
     if n == "X":
         return not bound
-    if n in ("T", "B", "null"):
+    if n in ("T", "B", "S", "null"):
         return False
     if n == "CX":
         return has_x_free(t["val"], bound)
@@ -137,6 +142,8 @@ class Renderer:
             return f"ev({t['i']})"
         if n == "B":
             return f"boom({t['i']})"
+        if n == "S":
+            return f"sv({t['i']})"
         if n == "X":
             return "x_"
         if n == "C":
@@ -241,7 +248,7 @@ def to_next(t):
 
 def no_walrus(t):
     n = t["n"]
-    if n in ("T", "B", "X", "null"):
+    if n in ("T", "B", "S", "X", "null"):
         return True
     if n in ("W", "CX"):
         return False
